@@ -71,6 +71,15 @@ def value_for(col, variant, row):
         body = ['0023003CT6', '0001000', '0158012ABCDEFGHIJKL0165001M', '0002005a,b"c'][vi % 4]
         return body
     base = 'ABCDEFGHJKLMNPQRSTUVWXYZ0123456789'
+    if vk == 'lit':
+        # a cell whose WHOLE text is a sentinel-like word or a string literal of the library's own source
+        from vf import literals
+        texts = literals.cell_texts(20)
+        t = texts[(vi + row) % len(texts)]
+        if kind == 'fixed':
+            return (t + base * 3)[:w] if len(t) < w else t[:w]
+        if kind in ('var', 'pdsval'):
+            return t[:w] if kind == 'var' else t
     if vk == 'blank':
         # present-but-blank looking cells: all spaces (fixed: exactly the width), 'None', '0' * width
         if kind == 'fixed':
@@ -356,6 +365,14 @@ def enumerate_cases(tier, seed):
                 add(de_cols + pds_cols, rows, v, omit, env)
                 add(de_cols + ['DE48'], rows, v, omit, env)
     add([], 1, ['plain', 0], 0, all_envs)
+    # every sentinel-like / harvested text as the whole content of a variable-length cell and of a PDS cell
+    from vf import literals
+    nlit = len(literals.cell_texts(20))
+    for vi in range(0, nlit, 3):
+        env = all_envs[vi % len(all_envs)]
+        for colset in (['DE63', 'PDS0158'], ['DE2' if False else 'DE31', 'DE94', 'PDS0023']):
+            cases.append({'cols': ['MTI'] + colset, 'rows': 3, 'variant': ['lit', vi], 'omit': 0, 'enc': env[0],
+                          'blocked': env[1], 'entry': env[2], 'seed': seed})
     for vi in range(len(META) * 2):
         for col in ('DE63', 'DE42', 'PDS0158'):
             for enc, blocked, entry in [e for e in all_envs if e[2] in ('cli', 'argv')][vi % 3::3]:
